@@ -102,7 +102,9 @@ def load_known(prop):
 def load_program(repo=None, all_targets=False):
     fdir, th = facts.ensure_facts(repo, all_targets=all_targets)
     raws = facts.load_raw(fdir)
-    return Program(raws), th, fdir
+    prog = Program(raws)
+    prog.apply_roles()
+    return prog, th, fdir
 
 
 def load_fixture_program():
